@@ -1,7 +1,12 @@
 // Package drv drives a generated proxy/stub pair through a real in-process
 // server by reflection: boundary values of every parameter / return / event /
 // property type are sent through the generated proxy and compared with what
-// the generated stub handed to the implementation, and back.
+// the generated stub handed to the implementation, and back. Lists of
+// containers also get items with shrinking and with equal inner sizes (the
+// reflection decoder of the proxy fills a list item by item), and every signal
+// and property is driven through the subscriber histories of one session
+// (one subscriber; two together; two leaving in either order followed by a
+// third): every emission must arrive exactly once, in order.
 package drv
 
 import (
@@ -998,7 +1003,10 @@ func (r *runner) histories(subMethod, label string, all [][]reflect.Value, emit 
 		emitted[s] = append(emitted[s], want...)
 		if f != "" {
 			cs := fmt.Sprintf("%s history %s, subscriber %s", label, hist, s.name)
-			r.fail(f, hist+"/"+s.name, cs+": "+what, cs)
+			// one record per failure kind and action: the first failing
+			// history is the witness (a leaked registration also disturbs the
+			// histories after it)
+			r.fail(f, "history", cs+": "+what, cs)
 			return false
 		}
 		return true
